@@ -150,19 +150,34 @@ def run_impl(case):
     kind = case["kind"]
     obs = {"error": None}
     try:
+        # the caller's array object is passed as is (and kept): "sum to the input" is judged against the array the caller
+        # still holds after the call, and a second call on that same array must give the same answer
+        arr = y.copy()
         if kind == "hp":
-            c, t = ts.hp_filter(y.copy(), float.fromhex(case["lam"]))
-            obs["cycle"], obs["trend"] = hexl(np.asarray(c, dtype=float).ravel()), hexl(np.asarray(t, dtype=float).ravel())
-            obs["cycle_bitwise_y_minus_trend"] = bool(np.array_equal(np.asarray(c), y - np.asarray(t)))
+            c, t = ts.hp_filter(arr, float.fromhex(case["lam"]))
+            c, t = np.array(c, dtype=float).ravel(), np.array(t, dtype=float).ravel()
+            obs["cycle"], obs["trend"] = hexl(c), hexl(t)
+            obs["cycle_bitwise_y_minus_trend"] = bool(np.array_equal(c, y - t))
+            obs["held_input"] = hexl(arr)
+            c2, t2 = ts.hp_filter(arr, float.fromhex(case["lam"]))
+            obs["repeat_equal"] = bool(np.array_equal(np.asarray(c2).ravel(), c, equal_nan=True) and np.array_equal(np.asarray(t2).ravel(), t, equal_nan=True))
         elif kind == "cycle1600":
-            c = ts.hp_cycle_lamb1600_filter(y.copy())
-            obs["out"] = hexl(np.asarray(c, dtype=float).ravel())
-            obs["bitwise_equals_hp_filter_1600"] = bool(np.array_equal(np.asarray(c), ts.hp_filter(y.copy(), 1600)[0]))
+            c = np.array(ts.hp_cycle_lamb1600_filter(arr), dtype=float).ravel()
+            obs["out"] = hexl(c)
+            obs["held_input"] = hexl(arr)
+            obs["repeat_equal"] = bool(np.array_equal(np.asarray(ts.hp_cycle_lamb1600_filter(arr)).ravel(), c, equal_nan=True))
+            obs["bitwise_equals_hp_filter_1600"] = bool(np.array_equal(c, ts.hp_filter(y.copy(), 1600)[0]))
         elif kind == "loghp":
-            obs["out"] = hexl(np.asarray(ts.log_and_hp_filter(y.copy()), dtype=float).ravel())
+            o = np.array(ts.log_and_hp_filter(arr), dtype=float).ravel()
+            obs["out"] = hexl(o)
+            obs["held_input"] = hexl(arr)
+            obs["repeat_equal"] = bool(np.array_equal(np.asarray(ts.log_and_hp_filter(arr)).ravel(), o, equal_nan=True))
             obs["nplog"] = hexl(np.log(y))
         elif kind == "difflog":
-            obs["out"] = hexl(np.asarray(ts.diff_log_demean_filter(y.copy()), dtype=float).ravel())
+            o = np.array(ts.diff_log_demean_filter(arr), dtype=float).ravel()
+            obs["out"] = hexl(o)
+            obs["held_input"] = hexl(arr)
+            obs["repeat_equal"] = bool(np.array_equal(np.asarray(ts.diff_log_demean_filter(arr)).ravel(), o, equal_nan=True))
             obs["nplog"] = hexl(np.log(y))
         elif kind == "moments":
             m = np.asarray(ts.get_mom_ts_1d(y.copy()))
@@ -259,6 +274,11 @@ def oracle(case, obs):
     kind = case["kind"]
     y = fr(case["series"])
     n = len(y)
+    if "held_input" in obs and obs["held_input"] != list(case["series"]):
+        fails.append("held-input: the array passed in no longer holds the series after the call, so the returned parts do not sum to "
+                     "the input the caller has in hand")
+    if obs.get("repeat_equal") is False:
+        fails.append("repeat: a second call on the same array object returned a different result")
     if kind == "hp":
         lam = F(float.fromhex(case["lam"]))
         if len(obs["cycle"]) != n or len(obs["trend"]) != n:
